@@ -2,9 +2,9 @@ package gosym
 
 import (
 	"fmt"
-	"os"
 	"go/token"
 	"go/types"
+	"os"
 	"sort"
 	"strings"
 	"time"
@@ -31,13 +31,13 @@ type goPanic struct {
 type mergeFail struct{ why string }
 
 type node struct {
-	taken   bool
-	pending bool // other side feasible and not yet explored
-	event   int
-	forced  bool
-	condID  int
-	model   *smt.Model // model of the pending side
-	auxAfter []AuxRec // solver-guided choices made after this decision and before the next one
+	taken    bool
+	pending  bool // other side feasible and not yet explored
+	event    int
+	forced   bool
+	condID   int
+	model    *smt.Model // model of the pending side
+	auxAfter []AuxRec   // solver-guided choices made after this decision and before the next one
 }
 
 // AuxRec is one solver-guided concretisation choice (a model value), recorded so
@@ -78,54 +78,54 @@ type ReplayInput struct {
 }
 
 type Config struct {
-	Tier        string
-	Backend     smt.Backend
-	SoftMS      int
-	HardS       int
-	Scratch     string
-	InstrBudget int64
-	DepthBudget int
-	MaxPaths    int
-	Twin        bool // append Assert(false) at harness end (vacuity witness)
-	Trace       bool
-	NoMerge     bool
+	Tier              string
+	Backend           smt.Backend
+	SoftMS            int
+	HardS             int
+	Scratch           string
+	InstrBudget       int64
+	DepthBudget       int
+	MaxPaths          int
+	Twin              bool // append Assert(false) at harness end (vacuity witness)
+	Trace             bool
+	NoMerge           bool
 	BudgetIsViolation bool
-	ConcretizeN int
-	MaxDecisions int
-	BatchMax     int
-	TimeBudget   time.Duration
-	Deadline     time.Time
+	ConcretizeN       int
+	MaxDecisions      int
+	BatchMax          int
+	TimeBudget        time.Duration
+	Deadline          time.Time
 }
 
 type Result struct {
-	Harness     string
-	Paths       int
-	PathEnds    map[string]int
-	Decisions   int
-	Instrs      int64
-	Asserts     int
-	AssertSites map[string]int
-	Reach       map[string]int
-	Violations  []Violation
-	KnownHits   map[string]string // id -> what (site)
+	Harness      string
+	Paths        int
+	PathEnds     map[string]int
+	Decisions    int
+	Instrs       int64
+	Asserts      int
+	AssertSites  map[string]int
+	Reach        map[string]int
+	Violations   []Violation
+	KnownHits    map[string]string // id -> what (site)
 	Inconclusive []string
-	Funcs       map[string]bool
-	Intrinsics  map[string]bool
-	Overrides   []string
-	Assumes     map[string]int
-	Merged      int
-	MaxCands    int
-	Solver      smt.Stats
-	Wall        time.Duration
-	Samples     []PathSample
-	Frontier    [][]Decision
+	Funcs        map[string]bool
+	Intrinsics   map[string]bool
+	Overrides    []string
+	Assumes      map[string]int
+	Merged       int
+	MaxCands     int
+	Solver       smt.Stats
+	Wall         time.Duration
+	Samples      []PathSample
+	Frontier     [][]Decision
 	FrontierRoot []AuxRec
-	BudgetHits  int
-	Observes    []string
-	TwinSat     bool
-	FactHits    int
-	OneSided    int
-	Witness     []Violation
+	BudgetHits   int
+	Observes     []string
+	TwinSat      bool
+	FactHits     int
+	OneSided     int
+	Witness      []Violation
 }
 
 type PathSample struct {
@@ -142,11 +142,11 @@ type Exec struct {
 	ld   *Loaded
 
 	// decision stack
-	stack  []node
-	depth  int // decisions taken on the current path
-	event  int // events (assumes/decisions/checks) on the current path
-	synced int // events already mirrored in the solver
-	pc     []*Term
+	stack         []node
+	depth         int // decisions taken on the current path
+	event         int // events (assumes/decisions/checks) on the current path
+	synced        int // events already mirrored in the solver
+	pc            []*Term
 	frontierDepth int // >0: stop paths at this decision depth and record prefixes
 	minDepth      int // do not backtrack below this many decisions (forced prefix)
 
@@ -167,34 +167,34 @@ type Exec struct {
 	selSeen   map[int]bool
 
 	// per path
-	symCount  map[string]int
-	syms      []*Term
-	symLabels []string
-	guard     *Term
-	spec      *specState
-	callDepth int
-	instrs    int64
-	panicking []*goPanic
-	knownConds []knownCond
-	model     *smt.Model
-	pending   []pendingAssert
-	facts     map[int]bool
-	auxRoot   []AuxRec
-	auxQueue  []AuxRec
-	auxOwner  int // index of the stack node owning new aux records, -1 = root
-	lockWatch *watch
-	watched   []*Obj
-	observes  []string
-	inInit    bool
-	lockEvents int
-	curPos    token.Pos
+	symCount    map[string]int
+	syms        []*Term
+	symLabels   []string
+	guard       *Term
+	spec        *specState
+	callDepth   int
+	instrs      int64
+	panicking   []*goPanic
+	knownConds  []knownCond
+	model       *smt.Model
+	pending     []pendingAssert
+	facts       map[int]bool
+	auxRoot     []AuxRec
+	auxQueue    []AuxRec
+	auxOwner    int // index of the stack node owning new aux records, -1 = root
+	lockWatch   *watch
+	watched     []*Obj
+	observes    []string
+	inInit      bool
+	lockEvents  int
+	curPos      token.Pos
 	harnessDone bool
 
-	res *Result
-	maxCands int
-	overrides map[*ssa.Function]*ssa.Function
+	res        *Result
+	maxCands   int
+	overrides  map[*ssa.Function]*ssa.Function
 	curHarness string
-	initDone  map[*ssa.Package]bool
+	initDone   map[*ssa.Package]bool
 }
 
 var traceOn = os.Getenv("VERIF_TRACE") != ""
